@@ -706,6 +706,6 @@ def construct_dataclass(eng, ci, args, kwargs, st, fr, k):
 
 
 def construct_builtin(eng, cname, args, kwargs, st, fr, k, node=None):
-    if cname in ("list", "dict", "set", "str", "int", "bool", "tuple"):
+    if cname in ("list", "dict", "set", "str", "int", "bool", "tuple", "type"):
         return call_builtin(eng, cname, None, args, kwargs, st, fr, k, node)
     raise _err(f"constructor {cname}")
